@@ -61,6 +61,8 @@ func runChild(t *testing.T) {
 	say("READY")
 	for i, op := range ops {
 		say("B %d", i)
+		// facts a case wants on its line even if the host dies while serving it (e.g. the price of the RPC)
+		w.pre = func(info string) { say("P %d %s", i, info) }
 		done := make(chan string, 1)
 		go func() {
 			sent := false
@@ -228,6 +230,7 @@ func runL2(t *testing.T, jobs []l2job) (obs map[int]string, died []string) {
 			timedOut = true
 		}
 		began, ended, ready := -1, map[int]string{}, false
+		pre := map[int]string{}
 		if f, err := os.Open(out); err == nil {
 			sc := bufio.NewScanner(f)
 			sc.Buffer(make([]byte, 1<<20), 1<<22)
@@ -238,6 +241,12 @@ func runL2(t *testing.T, jobs []l2job) (obs map[int]string, died []string) {
 					ready = true
 				case strings.HasPrefix(l, "B "):
 					began, _ = strconv.Atoi(l[2:])
+				case strings.HasPrefix(l, "P "):
+					rest := l[2:]
+					if sp := strings.IndexByte(rest, ' '); sp > 0 {
+						i, _ := strconv.Atoi(rest[:sp])
+						pre[i] = rest[sp+1:]
+					}
 				case strings.HasPrefix(l, "E "):
 					rest := l[2:]
 					sp := strings.IndexByte(rest, ' ')
@@ -287,7 +296,7 @@ func runL2(t *testing.T, jobs []l2job) (obs map[int]string, died []string) {
 		} else if timedOut {
 			pending = pending[last+1:]
 		} else if began >= 0 && !fin {
-			obs[pending[began].idx] = fmt.Sprintf("res=crash site=%s msg=%s", site, msg)
+			obs[pending[began].idx] = strings.TrimSpace(fmt.Sprintf("res=crash site=%s msg=%s %s", site, msg, pre[began]))
 			pending = pending[began+1:]
 		} else {
 			// died between cases (a delayed crash of a host goroutine)
